@@ -490,7 +490,19 @@ func generateReceiveMethod(file *jen.File, itf *idl.InterfaceType) error {
 
 	prelude := jen.Comment("action dispatch")
 	if itf.Name == "Object" {
-		prelude = jen.Id(`from = p.impl.Tracer(msg, from)`)
+		// Every generated object is wrapped by the Object stub: only
+		// call and post messages shall invoke a method. Other kinds
+		// (cancel, capability, ...) share the action id of the call
+		// they refer to and must not run it again.
+		prelude = jen.If(
+			jen.Id("msg.Header.Type").Op("!=").Qual(
+				"github.com/lugu/qiloop/bus/net", "Call",
+			).Op("&&").Id("msg.Header.Type").Op("!=").Qual(
+				"github.com/lugu/qiloop/bus/net", "Post",
+			),
+		).Block(
+			jen.Return(jen.Nil()),
+		).Line().Id(`from = p.impl.Tracer(msg, from)`)
 	}
 
 	method := func(m object.MetaMethod, methodName string) error {
